@@ -180,6 +180,40 @@ def setReferenceSequence (chr : Seq) (start end_ : Int) : GeneRef Ã— List ((Iv Ã
 def setReferenceSequenceNoClamp (chr : Seq) (start end_ : Int) : GeneRef Ã— List ((Iv Ã— Strand) Ã— Bool) :=
   ({ refRegion := pySlice chr (start - 1) end_, start := start }, [])
 
+/-! ### the reference window of a gene region loaded from the save file (second pass)
+
+`NormalTmpFileAssignmentLoader.get_object` loads the window `(gene_info.start, gene_info.end)` of the saved header â€” for a
+genic region that is the GENE span, not the span of the reads â€” and `ReadAssignmentLoader.get_next` (fix: widen the window)
+then makes it cover every read it hands on: `extend_reference_region`. -/
+
+/-- what the window computation reads of a loaded read assignment -/
+structure ReadSpan where
+  exons : List Iv
+  correctedExons : List Iv
+  deriving Repr, DecidableEq
+
+/-- `if exons: region_start = min(region_start, exons[0][0]); region_end = max(region_end, exons[-1][1])` -/
+def widenBy (w : Iv) (ex : List Iv) : Iv :=
+  match ex.head?, ex.getLast? with
+  | some f, some l => (min w.1 f.1, max w.2 l.2)
+  | _, _ => w
+
+/-- the loop of `extend_reference_region` over the assignment storage -/
+def extendedWindow (w : Iv) (reads : List ReadSpan) : Iv :=
+  reads.foldl (fun w r => widenBy (widenBy w r.exons) r.correctedExons) w
+
+/-- the loaded `gene_info` of a region whose header says `hdr = (start, end)` and whose kept reads are `reads`:
+    `get_object` sets the header window (clamped at 1), `extend_reference_region` re-loads a wider one when a read
+    reaches beyond it -/
+def loadRegion (chr : Seq) (hdr : Iv) (reads : List ReadSpan) : GeneRef Ã— List ((Iv Ã— Strand) Ã— Bool) :=
+  let w0 : Iv := (max 1 hdr.1, hdr.2)
+  let w := extendedWindow w0 reads
+  if w.1 < w0.1 âˆ¨ w.2 > w0.2 then setReferenceSequence chr w.1 w.2 else setReferenceSequence chr hdr.1 hdr.2
+
+/-- before the fix: the header window, whatever the reads -/
+def loadRegionOrig (chr : Seq) (hdr : Iv) (_reads : List ReadSpan) : GeneRef Ã— List ((Iv Ã— Strand) Ã— Bool) :=
+  setReferenceSequence chr hdr.1 hdr.2
+
 /-- `gene_info.canonical_sites` after the `fix:` commits (key = (intron, strand)) -/
 abbrev CanonMemo := List ((Iv Ã— Strand) Ã— Bool)
 
